@@ -123,7 +123,7 @@ Qed.
 (* ---------- what a successful / refused ledger primitive does to the allocation dict ---------- *)
 Definition pos_req (req : rvec) : Prop := exists r q, In (r, q) req /\ 0 < q.
 Definition Held (a : allocs) (c : comp) (req : rvec) : Prop :=
-  exists l, al_find c a = Some l /\ l <> [] /\ forall n, sumP (name_is n) l = sumP (name_is n) req.
+  exists l, al_find c a = Some l /\ forall n, sumP (name_is n) l = sumP (name_is n) req.
 
 Lemma sumP_nonneg : forall P v, nonneg_vec v -> 0 <= sumP P v.
 Proof. intros P. induction v as [|[k q] v IH]; intro H; cbn [sumP]; [lia|]. inversion H; subst. cbn [snd] in *. specialize (IH H3). destruct (P k); lia. Qed.
@@ -135,17 +135,28 @@ Proof.
   - specialize (IH H2 Hin). destruct (name_is (fst r) k); lia.
 Qed.
 
-Lemma am_ok_fresh : forall R req c R', Nonneg R -> nonneg_vec req -> pos_req req ->
+Lemma al_find_register_other : forall c c' a, comp_eqb c c' = false -> al_find c' (al_register c a) = al_find c' a.
+Proof.
+  intros c c' a H. unfold al_register. destruct (al_find c a); [reflexivity|].
+  induction a as [|[c0 l0] a IH]; cbn [app al_find]; [rewrite H; reflexivity|]. destruct (comp_eqb c0 c'); [reflexivity|exact IH].
+Qed.
+Lemma al_find_register_same : forall c a, al_find c (al_register c a) = Some (al_get c a).
+Proof.
+  intros c a. unfold al_register, al_get. destruct (al_find c a) as [l|] eqn:E; [exact E|].
+  induction a as [|[c0 l0] a IH]; cbn [app al_find] in *; [rewrite comp_eqb_refl; reflexivity|].
+  destruct (comp_eqb c0 c); [discriminate|]. apply IH. exact E.
+Qed.
+(* a served request of a computation that held nothing: it now holds exactly the request (possibly an
+   empty entry, /repo be1cb9f), nobody else's entry moves *)
+Lemma am_ok_fresh : forall R req c R', Nonneg R ->
   al_find c (r_allocs R) = None -> r_allocate_multiple R req c = (R', Ok tt) ->
   Held (r_allocs R') c req /\ forall c', comp_eqb c c' = false -> al_find c' (r_allocs R') = al_find c' (r_allocs R).
 Proof.
-  intros R req c R' HN Hq Hp Hf H. destruct (allocate_multiple_exact _ _ _ _ HN Hq H) as (recs & Ea & Es).
+  intros R req c R' HN Hf H. pose proof (allocate_multiple_ok_nonneg _ _ _ _ H) as Hq.
+  destruct (allocate_multiple_exact _ _ _ _ HN Hq H) as (recs & Ea & Es).
   rewrite Ea. split.
-  - exists recs. assert (Hne : recs <> []).
-    { destruct (pos_req_sum _ Hq Hp) as (n & Hn). intro E. subst recs. specialize (Es n). cbn in Es. lia. }
-    split; [|split; [exact Hne|exact Es]].
-    unfold al_append. destruct recs as [|x recs]; [congruence|]. rewrite al_find_set_same. unfold al_get. rewrite Hf. reflexivity.
-  - intros c' Hc. apply al_find_append_other. exact Hc.
+  - exists recs. split; [|exact Es]. rewrite al_find_register_same, al_get_append_same. unfold al_get. rewrite Hf. reflexivity.
+  - intros c' Hc. rewrite al_find_register_other by exact Hc. apply al_find_append_other. exact Hc.
 Qed.
 Lemma de_ok : forall R c R', Dict_ok R -> r_deallocate R c = (R', Ok tt) ->
   al_find c (r_allocs R') = None /\ forall c', comp_eqb c c' = false -> al_find c' (r_allocs R') = al_find c' (r_allocs R).
@@ -196,10 +207,8 @@ Section Inv.
   (* the hypotheses on one operation, in the state it is applied to *)
   Definition wop_ok (w : worker) (o : wop) : Prop :=
     match o with
-    | WPlace t s => zfind t (w_placed w) = None /\ nonneg_vec (s_req s) /\ pos_req (s_req s) /\
-                    (s_is_batch s = true -> s = tbl (s_id s))
-    | WLoad p s => zfind p (w_avail_prof w) = None /\ zfind p (w_pend_prof w) = None /\
-                   nonneg_vec (s_req s) /\ pos_req (s_req s)
+    | WPlace t s => s_is_batch s = true -> s = tbl (s_id s)     (* one strategy object per batch identifier *)
+    | WLoad p s => zfind p (w_avail_prof w) = None /\ zfind p (w_pend_prof w) = None   (* finding FG is not repaired *)
     | _ => True
     end.
 
@@ -222,7 +231,9 @@ Section Inv.
   Lemma winv_place : forall t s w w' o, WInv w -> wop_ok w (WPlace t s) -> w_place t s w = (w', o) ->
     WInv w' /\ (forall e, o = Err e -> w' = w).
   Proof.
-    intros t s w w' o HI (Hfr & Hnn & Hpos & Htbl) H. unfold w_place in H.
+    intros t s w w' o HI Htbl H. unfold w_place in H. cbn [wop_ok] in Htbl.
+    destruct (zmem t (w_placed w)) eqn:Ezm; [inversion H; subst; auto|].
+    assert (Hfr : zfind t (w_placed w) = None) by (apply zmem_false_find; exact Ezm).
     destruct HI as [Hres Hn Hndp Hndb Hbk Hnda Hndq Hdisj Hmem Hpb Hfresh Hinj Horph Hext Hexb Hexp].
     destruct (s_is_batch s) eqn:Eb.
     - (* batch strategy *)
@@ -269,14 +280,14 @@ Section Inv.
           destruct (Horph _ X) as (sid & Es). apply Hfresh in Es. lia. }
         destruct (r_allocate_multiple (w_res w) (s_req s) (CBatch (w_fresh w))) as [R [[]|e]] eqn:Ea; inversion H; subst; clear H.
         2:{ assert (R = w_res w).
-            { destruct Hres as [HA HB]. eapply allocate_multiple_refusal; eauto. rewrite Hfb. discriminate. }
+            { destruct Hres as [HA HB]. eapply allocate_multiple_refusal_any; eauto. }
             subst R. rewrite w_set_res_same. split; [constructor; assumption|auto]. }
         split; [|intros e He; discriminate].
-        destruct (am_ok_fresh _ _ _ _ Hn Hnn Hpos Hfb Ea) as [Hheld Hoth].
+        destruct (am_ok_fresh _ _ _ _ Hn Hfb Ea) as [Hheld Hoth].
         assert (Hbt : zfind (s_id s) (w_btask w) = None) by (apply (zfind_keys_eq _ _ _ Hbk); exact Efb).
         constructor; cbn [w_res w_placed w_batches w_btask w_avail_prof w_pend_prof w_fresh]; auto.
         * eapply res_ok_allocate_multiple; eauto.
-        * eapply nonneg_allocate_multiple; eauto.
+        * eapply nonneg_allocate_multiple_any; eauto.
         * apply nodup_zset. exact Hndp.
         * apply nodup_zset. exact Hndb.
         * rewrite !keys_zset_notin by assumption. rewrite Hbk. reflexivity.
@@ -331,13 +342,13 @@ Section Inv.
         destruct (Horph _ X) as (s0 & E0 & _). congruence. }
       destruct (r_allocate_multiple (w_res w) (s_req s) (CTask t)) as [R [[]|e]] eqn:Ea; inversion H; subst; clear H.
       2:{ assert (R = w_res w).
-          { destruct Hres as [HA HB]. eapply allocate_multiple_refusal; eauto. rewrite Hft. discriminate. }
+          { destruct Hres as [HA HB]. eapply allocate_multiple_refusal_any; eauto. }
           subst R. rewrite w_set_res_same. split; [constructor; assumption|auto]. }
       split; [|intros e He; discriminate].
-      destruct (am_ok_fresh _ _ _ _ Hn Hnn Hpos Hft Ea) as [Hheld Hoth].
+      destruct (am_ok_fresh _ _ _ _ Hn Hft Ea) as [Hheld Hoth].
       constructor; cbn [w_res w_placed w_batches w_btask w_avail_prof w_pend_prof w_fresh]; auto.
       * eapply res_ok_allocate_multiple; eauto.
-      * eapply nonneg_allocate_multiple; eauto.
+      * eapply nonneg_allocate_multiple_any; eauto.
       * apply nodup_zset. exact Hndp.
       * intros sid mem0 E0. destruct (Hmem _ _ E0) as (A1 & A2 & A3 & A4 & A5).
         repeat (split; [assumption|]). intro t0. destruct (Z.eq_dec t t0) as [->|Hnt].
@@ -498,7 +509,7 @@ Section Inv.
   Lemma winv_load : forall p s w w' o, WInv w -> wop_ok w (WLoad p s) -> w_load p s w = (w', o) ->
     WInv w' /\ (forall e, o = Err e -> w' = w).
   Proof.
-    intros p s w w' o HI (Hfa & Hfp & Hnn & Hpos) H. unfold w_load in H.
+    intros p s w w' o HI (Hfa & Hfp) H. unfold w_load in H.
     destruct HI as [Hres Hn Hndp Hndb Hbk Hnda Hndq Hdisj Hmem Hpb Hfresh Hinj Horph Hext Hexb Hexp].
     assert (Hfc : al_find (CProf p) (r_allocs (w_res w)) = None).
     { destruct (al_find (CProf p) (r_allocs (w_res w))) eqn:E; [|reflexivity].
@@ -506,13 +517,13 @@ Section Inv.
       destruct (Horph _ X); congruence. }
     destruct (r_allocate_multiple (w_res w) (s_req s) (CProf p)) as [R [[]|e]] eqn:Ea; inversion H; subst; clear H.
     2:{ assert (R = w_res w).
-        { destruct Hres as [HA HB]. eapply allocate_multiple_refusal; eauto. rewrite Hfc. discriminate. }
+        { destruct Hres as [HA HB]. eapply allocate_multiple_refusal_any; eauto. }
         subst R. rewrite w_set_res_same. split; [constructor; assumption|auto]. }
     split; [|intros e He; discriminate].
-    destruct (am_ok_fresh _ _ _ _ Hn Hnn Hpos Hfc Ea) as [Hheld Hoth].
+    destruct (am_ok_fresh _ _ _ _ Hn Hfc Ea) as [Hheld Hoth].
     constructor; cbn [w_res w_placed w_batches w_btask w_avail_prof w_pend_prof w_fresh]; auto.
     - eapply res_ok_allocate_multiple; eauto.
-    - eapply nonneg_allocate_multiple; eauto.
+    - eapply nonneg_allocate_multiple_any; eauto.
     - apply nodup_zset. exact Hndq.
     - intros p0 E0. destruct (Z.eq_dec p p0) as [<-|Hne]; [congruence|]. rewrite zfind_zset_other by exact Hne. auto.
     - intros sid b E0. apply Hfresh in E0. lia.
@@ -732,5 +743,34 @@ Section Inv.
   Proof.
     intros w r HI Hp Ha Hq. destruct (winv_empty_full w HI Hp Ha Hq) as [_ E].
     unfold r_allocated_q, r_available, r_total_q. rewrite E. split; lia.
+  Qed.
+
+  (* removing a resident task always succeeds (since /repo be1cb9f also for a task whose request recorded
+     nothing), evicting a loaded or loading profile always succeeds *)
+  Theorem w_remove_resident_ok : forall t w, WInv w -> zfind t (w_placed w) <> None -> snd (w_remove t w) = Ok tt.
+  Proof.
+    intros t w HI Hp. unfold w_remove. destruct (zfind t (w_placed w)) as [s|] eqn:Ept; [|congruence].
+    destruct (s_is_batch s) eqn:Eb.
+    - destruct (wi_placed_batch _ HI _ _ Ept Eb) as [Htbl Hsome].
+      destruct (zfind (s_id s) (w_batches w)) as [mem|] eqn:Efb; [|congruence].
+      destruct (wi_members _ HI _ _ Efb) as (_ & _ & _ & _ & Hm5).
+      assert (Hsm : set_mem t mem = true) by (apply set_mem_in; apply Hm5; congruence).
+      rewrite Hsm. cbn [negb]. destruct (set_remove t mem); [|reflexivity].
+      destruct (zfind (s_id s) (w_btask w)) as [b|] eqn:Ebt.
+      + destruct (wi_ex_batch _ HI _ _ Ebt) as (l & El & _). destruct (de_some _ _ _ El) as (R & ->). reflexivity.
+      + apply (zfind_keys_eq _ _ _ (wi_bt_keys _ HI)) in Ebt. congruence.
+    - destruct (wi_ex_task _ HI _ _ Ept Eb) as (l & El & _). destruct (de_some _ _ _ El) as (R & ->). reflexivity.
+  Qed.
+  Theorem w_evict_loaded_ok : forall p w, WInv w ->
+    zfind p (w_avail_prof w) <> None \/ zfind p (w_pend_prof w) <> None -> snd (w_evict p w) = Ok tt.
+  Proof.
+    intros p w HI Hp. unfold w_evict.
+    assert (Hs : exists s, zfind p (w_avail_prof w) = Some s \/ zfind p (w_pend_prof w) = Some s).
+    { destruct (zfind p (w_avail_prof w)) as [s|]; [eauto|]. destruct (zfind p (w_pend_prof w)) as [s|]; [eauto|]. destruct Hp; congruence. }
+    destruct Hs as (s & Hs).
+    assert (Ez : negb (zmem p (w_avail_prof w)) && negb (zmem p (w_pend_prof w)) = false).
+    { unfold zmem. destruct Hs as [-> | ->]; [reflexivity|]. destruct (zfind p (w_avail_prof w)); reflexivity. }
+    rewrite Ez. destruct (wi_ex_prof _ HI _ _ Hs) as (l & El & _). destruct (de_some _ _ _ El) as (R & ->).
+    destruct (zmem p (w_avail_prof w)); reflexivity.
   Qed.
 End Inv.
